@@ -58,7 +58,8 @@ let char_of_phase = function BEFORE -> 'B' | DURING -> 'D' | AFTER -> 'A'
 let parse_step (t : string) : step =
   let rest = String.sub t 1 (String.length t - 1) in
   match t.[0] with
-  | 'K' -> SWaitClk (clk_of_char t.[1], phase_of_char t.[2])
+  | 'K' -> if t.[1] >= '2' then SWaitX (nat_of_int (Char.code t.[1] - Char.code '2'), phase_of_char t.[2])
+           else SWaitClk (clk_of_char t.[1], phase_of_char t.[2])
   | 'T' -> SWaitFor (uq_of_string rest)
   | 'H' -> SWaitChange (mask_of_int (int_of_string rest))
   | 'S' -> SWaitStable
@@ -75,6 +76,7 @@ let string_of_wake = function
   | WkClk (c, ph) -> Printf.sprintf "K%c%c" (char_of_clk c) (char_of_phase ph)
   | WkFor (n, d) -> Printf.sprintf "T%d/%d" (int_of_n n) (int_of_pos d)
   | WkChange m -> Printf.sprintf "H%d" (int_of_mask m)
+  | WkX (i, ph) -> Printf.sprintf "K%d%c" (int_of_nat i + 2) (char_of_phase ph)
   | WkStable -> "S"
   | WkJoin k -> Printf.sprintf "J%d" (int_of_nat k)
 let string_of_val = function None -> "X" | Some v -> string_of_int (int_of_n v)
@@ -116,20 +118,22 @@ let () =
   let ic = open_in Sys.argv.(2) in
   let fuel = nat_of_int 20000 in
   let id = ref "" and fa = ref (pq_of_string "1/1") and fb = ref (pq_of_string "1/1") and two = ref false
-  and procs = ref [] and subs = ref [] and until = ref (q_of_string "0/1") and tb = ref default_tb in
+  and procs = ref [] and subs = ref [] and extra = ref [] and until = ref (q_of_string "0/1") and tb = ref default_tb in
   (try
     while true do
       let line = input_line ic in
       match split line with
-      | "case" :: i :: _ -> id := i; procs := []; subs := []; two := false; tb := default_tb
+      | "case" :: i :: _ -> id := i; procs := []; subs := []; extra := []; two := false; tb := default_tb
       | "clk" :: a :: b :: _ -> fa := pq_of_string a; two := (b <> "-"); if !two then fb := pq_of_string b
+      | "x" :: f :: _ -> extra := XRoot (pq_of_string f) :: !extra
+      | "y" :: p :: m :: _ -> extra := XDerived ((if p = "1" then CB else CA), pq_of_string m) :: !extra
       | "p" :: toks -> procs := List.map parse_step toks :: !procs
       | "s" :: toks -> subs := List.map parse_step toks :: !subs
       | "tb" :: b :: _ -> tb := b
       | "until" :: u :: _ -> until := q_of_string u
       | "end" :: _ ->
         Printf.printf "case %s\n" !id;
-        let cfg = { c_two = !two; c_fa = !fa; c_fb = !fb; c_subs = List.rev !subs } in
+        let cfg = { c_two = !two; c_fa = !fa; c_fb = !fb; c_subs = List.rev !subs; c_extra = List.rev !extra } in
         let r = simulate cfg (List.rev !procs) fiber !until (bits_of_string !tb) fuel in
         List.iter (print_entry !two) r.res_log;
         Printf.printf "Q %d %d\nend\n" (int_of_n r.res_ties) (if r.res_oof then 1 else 0)
